@@ -6,11 +6,11 @@ import Mathlib.Tactic.SplitIfs
 
 `Tv.GenMap.<fn>.run` is written by translator/maps.py from the Rust source on every run (function
 body in source order; the iterator algebra `repeat_n / chain / take / skip / zip / map` read as the
-list algebra of the yielded items).  For `shift`, `vshift`, `vdiff`, `vpct_change`, `vclip` and
-`fill` this file proves that the regenerated function **equals** the hand-written model for every
+list algebra of the yielded items).  For `shift`, `vshift`, `vdiff`, `vpct_change`, `vclip`,
+`fill`, `ffill(_mask)` and `bfill(_mask)` this file proves that the regenerated function **equals** the hand-written model for every
 series and every parameter (`*_eq`), and therefore — through the C13 theorems — the positional
-definition of the property (`*_spec`).  Not translated: `vabs` / `abs` (element method), `ffill` /
-`bfill` (a `map` closure with a captured mutable cell), `vcut`, `vsorted_unique*`.
+definition of the property (`*_spec`).  `ffill(_mask)` / `bfill(_mask)` — a `map` closure that mutates a captured cell — become the
+state-passing map `mapSt`. Not translated: `vabs` / `abs` (element method), `vcut`, `vsorted_unique*`.
 -/
 set_option linter.unusedSimpArgs false
 set_option linter.unusedVariables false
@@ -83,6 +83,47 @@ theorem vclip_eq (xs : List (Option Rat)) (lower upper : Option Rat) :
       intro v _
       cases v <;> simp
 
+/-- a state-passing map whose closure stores the last unmasked element and substitutes it (or the
+default) for masked ones is the model's `fillGo` -/
+theorem mapSt_fill (mask : Option Rat → Bool) (dflt : Option Rat)
+    (f : Option (Option Rat) → Option Rat → Option (Option Rat) × Option Rat)
+    (hf : ∀ lv v, f lv v = if mask v then (lv, match lv with | some l => l | none => dflt) else (some v, v))
+    (lv : Option (Option Rat)) (xs : List (Option Rat)) :
+    Gen.mapSt f lv xs = fillGo mask dflt lv xs := by
+  induction xs generalizing lv with
+  | nil => rfl
+  | cons x xs ih =>
+    simp only [Gen.mapSt, fillGo, hf]
+    by_cases hm : mask x = true
+    · simp only [hm, if_true]; rw [ih]; cases lv <;> rfl
+    · simp only [hm, if_false, Bool.false_eq_true]; rw [ih]
+
+theorem ffill_mask_eq (xs : List (Option Rat)) (mask : Option Rat → Bool) (value : Option (Option Rat)) :
+    GenMap.ffill_mask.run xs mask value = C13.ffillMask mask value xs := by
+  unfold GenMap.ffill_mask.run C13.ffillMask
+  simp only []
+  apply mapSt_fill mask (value.getD none)
+  intro lv v
+  by_cases hm : mask v = true
+  · cases lv <;> cases value <;> simp [hm]
+  · simp [hm]
+
+theorem bfill_mask_eq (xs : List (Option Rat)) (mask : Option Rat → Bool) (value : Option (Option Rat)) :
+    GenMap.bfill_mask.run xs mask value = C13.bfillMask mask value xs := by
+  unfold GenMap.bfill_mask.run C13.bfillMask
+  simp only []
+  congr 1
+  apply mapSt_fill mask (value.getD none)
+  intro lv v
+  by_cases hm : mask v = true
+  · cases lv <;> cases value <;> simp [hm]
+  · simp [hm]
+
+theorem ffill_eq (xs : List (Option Rat)) (value : Option (Option Rat)) :
+    GenMap.ffill.run xs value = C13.ffill value xs := ffill_mask_eq xs _ value
+theorem bfill_eq (xs : List (Option Rat)) (value : Option (Option Rat)) :
+    GenMap.bfill.run xs value = C13.bfill value xs := bfill_mask_eq xs _ value
+
 /-! ## the regenerated operations against the positional definitions (`Spec`, via the C13 theorems) -/
 
 theorem shift_spec (xs : List (Option Rat)) (n : Int) (v : Option Rat) :
@@ -99,7 +140,15 @@ theorem fill_spec (xs : List (Option Rat)) (v : Option Rat) :
     GenMap.fill.run xs v = Spec.fillS Option.isNone v xs := by rw [fill_eq]; rfl
 
 /-- all six functions were found and translated -/
+theorem ffill_spec (xs : List (Option Rat)) (mask : Option Rat → Bool) (value : Option (Option Rat)) :
+    GenMap.ffill_mask.run xs mask value = Spec.ffillS mask (value.getD none) xs := by
+  rw [ffill_mask_eq, C13.ffill_eq_ffillS]
+theorem bfill_spec (xs : List (Option Rat)) (mask : Option Rat → Bool) (value : Option (Option Rat)) :
+    GenMap.bfill_mask.run xs mask value = Spec.bfillS mask (value.getD none) xs := by
+  rw [bfill_mask_eq, C13.bfill_eq_bfillS]
+
 theorem functions_present :
-    GenMap.functions = ["shift", "vclip", "fill", "vshift", "vdiff", "vpct_change"] := rfl
+    GenMap.functions = ["shift", "vclip", "fill", "ffill_mask", "ffill", "bfill_mask", "bfill", "vshift", "vdiff",
+      "vpct_change"] := rfl
 
 end Tv.C13Gen
